@@ -192,6 +192,7 @@ class Scenario:
             self.k = max(self.k, 1)  # v == 0 initially: K = 0 would already fail at depth 0
             self.options["invariant_depth"] = 1
             self.sig = "invariant_v()"
+            self.history = ch.choose(["once", "twice", "two_contracts"], "s.hist")
 
             def setup(a):
                 tag = a.fresh("tinit")
@@ -372,7 +373,10 @@ class C10Check:
         try:
             # a branching query answered `unknown` (solver timeout) makes a decidable loop condition undecided
             unknown_rate = ch.choose([0.0, 0.0, 0.3, 1.0], "sw.unk") if sc.kind.startswith("loop") else 0.0
-            out = R.run_under_sim(ch, main, solver=solver, keep_log=keep_log, max_steps=60000, unknown_rate=unknown_rate)
+            # the feasibility query of a stuck path may itself go wrong: anything but `unsat` must keep the path reported
+            fr = ch.choose([0.0, 0.5, 1.0], "sw.fr") if sc.kind == "stuck" else 0.0
+            out = R.run_under_sim(ch, main, solver=solver, keep_log=keep_log, max_steps=60000, unknown_rate=unknown_rate,
+                                  fault_rate=fr, kinds=["unknown", "crash_empty", "garbage", "error_line"])
         finally:
             E.LogCapture.__enter__ = orig_enter
         vio = []
@@ -410,7 +414,7 @@ class C10Check:
                                             detail=f"[PASS] although n=9 fails after a loop with the concrete trip count {sc.c}; --loop {sc.loop}"))
                         elif not flagged:
                             if sc.kind == "inv_loop":
-                                vio.append(dict(oracle="C10:silent-cut", disc="invariant-target",
+                                vio.append(dict(oracle="C10:silent-cut", disc="invariant-target" + ("" if ri == 0 else ":" + sc.history),
                                                 detail=f"[PASS] for {r.name} (--invariant-depth 1, --loop {sc.loop}) without any bound warning although "
                                                        f"the single call run({fails[0]}) breaks v != {sc.k} on the reference EVM: the loop inside the "
                                                        f"target was cut after {sc.loop} iterations; log of that run: {logs[-3:]}"))
